@@ -96,7 +96,7 @@ def model_block_clash(r):
 def run(ctx):
     ctx.prove('LPVerif.Props.C04', 'LPVerif/Props/C04.lean')
     build = ctx.build()
-    n = 200 if ctx.quick else 3000
+    n = 300 if ctx.quick else 4000
     if ctx.broken:
         n *= 4
     cases = []
